@@ -35,6 +35,7 @@ func runC06(c *Ctx) {
 	r.Rule("C06.R4", "fresh mids are unique: same scan rule as C09.R5 (every existing mid raises greaterMid before a fresh one is handed out)", 2)
 	r.Rule("C06.R6", "typestate of new transceivers: every `v := &RTPTransceiver{...}` passes v.setDirection(d) on every path before v is used for anything but its own setters, and no setDirection is given the constant zero direction (a transceiver without a stored direction renders a=unknown, i.e. no direction attribute)", 2)
 	r.Rule("C06.R7", "same rule as C12.R1's offer part: outside Plan-B both generator calls of CreateOffer are dominated by the loop that gives every transceiver without a mid a fresh one (a section rendered from a transceiver without a mid has the empty mid, shared by all such sections)", 2)
+	r.Rule("C06.R8", "same rule as C07.R4 / C09.R7: the rejected (port 0) section addTransceiverSDP emits carries the mid PARAMETER (the section id populateSDP binds) as a=mid, so rejected sections keep distinct mids also where transceivers have none (Plan-B)", 3)
 	r.Rule("C06.R5", "same rule as C09.R6: a len-based data-section mid is computed after all other sections were appended", 1)
 	r.NotCovered = append(r.NotCovered,
 		"uniqueness of mids over arbitrary histories beyond provenance (e.g. a remote peer reusing a mid)",
@@ -63,6 +64,7 @@ func c06Rules(c *Ctx) {
 	c06SectionAttrs(env, "C06.R3")
 	c06Fingerprints(env, "C06.R3")
 	c12OfferMids(env, "C06.R7")
+	c07R4(env, "C06.R8")
 }
 
 // ---------------------------------------------------------------------------
@@ -504,6 +506,28 @@ func c06Bundle(env *c06Env, rule string) {
 		}
 		return true
 	})
+
+	// a closure that extends the group value does so on every one of its paths: a conditional early return inside it
+	// (e.g. "skip if the value already contains the mid") silently drops an accepted section's mid from BUNDLE
+	for _, ap := range closures {
+		lg := c.P.GraphOfLit(ap.lit)
+		if lg == nil {
+			continue
+		}
+		wr := map[int]bool{}
+		for _, nd := range lg.Nodes {
+			if as, ok := nd.Ast.(*ast.AssignStmt); ok {
+				for _, l := range as.Lhs {
+					if core.VarOf(lg.Info, l) == groupVar {
+						wr[nd.ID] = true
+					}
+				}
+			}
+		}
+		reach := lg.ReachFromEntry(func(x int) bool { return wr[x] }, nil)
+		r.Check(len(wr) > 0 && !reach[lg.Exit], rule, "populateSDP|bundle-append|closure-appends-on-every-path", c.P.Pos(ap.lit.Pos()), "the closure extends the BUNDLE value on every path",
+			"the closure that extends the BUNDLE value can return without appending its argument: an accepted (non-zero-port) section's mid is missing from a=group:BUNDLE")
+	}
 
 	// bundle-append nodes inside the loop, with the appended operand
 	type bnode struct {
